@@ -46,9 +46,8 @@ theorem baseRemove_shrinks (s : St) (g e : Nat) : Shrinks s (baseRemove s g e).1
         · exact Shrinks.refl s
         · split
           · exact Shrinks.refl s
-          · next k _ _ _ _ =>
-            exact Shrinks_modify (F := fun S => { S with backend := AList.erase k S.backend }) rfl
-              (fun S => ⟨rfl, rfl, rfl, fun k' hk' => (AList.keys_erase_sublist k S.backend).subset hk'⟩)
+          · exact Shrinks_modify (F := fun S => { S with backend := AList.erase _ S.backend }) rfl
+              (fun S => ⟨rfl, rfl, rfl, fun k' hk' => (AList.keys_erase_sublist _ S.backend).subset hk'⟩)
   · exact Shrinks.refl s
 
 theorem setOrder_shrinks (s : St) (g : Nat) (f : List Nat → List Nat) : Shrinks s (setOrder s g f) :=
@@ -204,7 +203,7 @@ theorem rename_atomic {s : St} (hI : Inv s) (e : Nat) (nk : Option String)
                   rw [hS] at this
                   cases hh : S.hooks with
                   | none => rfl
-                  | some c => rw [hh] at this; simp at this
+                  | some c => simp [hh] at this
     | qual =>
       rw [hkd] at hr; simp only at hr ⊢
       cases nk with
